@@ -21,7 +21,7 @@ ASSUMPTIONS = ["exact products in Fractions; single multiplications/divisions co
 FLOORS = {'quick': {'view-ctrlpts': 800, 'view-weights': 800, 'view-ctrlptsw': 800, 'scale-invariance': 100, 'helper-inverse': 300,
                     'convert': 100, 'grid-weight': 150},
           'thorough': {'view-ctrlpts': 8000, 'view-ctrlptsw': 8000, 'convert': 1000}}
-MANDATORY_TAGS = ['pdim1', 'pdim2', 'pdim3', 'op:ctrlpts', 'op:weights', 'op:ctrlptsw', 'op:set_ctrlpts', 'op:scaleW',
+MANDATORY_TAGS = ['pdim1', 'pdim2', 'pdim3', 'op:restructure', 'op:ctrlpts', 'op:weights', 'op:ctrlptsw', 'op:set_ctrlpts', 'op:scaleW',
                   'read-then-write', 'grid', 'convert']
 TECHNIQUE = ("runtime monitoring: shadow-model oracle (P, W) compared with all three views after every step of seeded "
              "setter/getter histories; exact-product oracles on the helper conversions; reference-model evaluation for "
@@ -82,7 +82,7 @@ def check_history(case, ctx):
         views_ok(ctx, o, P, W, 'construction')
     last_read = False
     for step in range(case['steps']):
-        op = rng.choice(['ctrlpts', 'weights', 'ctrlptsw', 'set_ctrlpts', 'scaleW', 'read', 'read'])
+        op = rng.choice(['ctrlpts', 'weights', 'ctrlptsw', 'set_ctrlpts', 'scaleW', 'read', 'read', 'restructure'])
         ctx.tag('op:' + op)
         if op != 'read' and last_read:
             ctx.tag('read-then-write')
@@ -93,6 +93,42 @@ def check_history(case, ctx):
             last_read = True
             continue
         last_read = False
+        if op == 'restructure':
+            # operations that rewrite the homogeneous points themselves: afterwards the three views must still be related by
+            # multiplication with the weight (checked on the object's own views; P and W are re-read from it)
+            from geomdl import operations
+            which = rng.choice(['reverse', 'insert', 'translate', 'flip', 'transpose', 'refine'])
+            with so.quiet():
+                if which == 'reverse' and pdim == 1:
+                    o.reverse()
+                elif which == 'insert':
+                    d = rng.randrange(pdim)
+                    pick = so.pick_insertion(rng, o, d, prefer_knot=0.2)
+                    if pick is None or max(G.sizes_of(o)) > 10:
+                        continue
+                    so.call_insert(o, d, pick[0], 1, rng.choice(['operations', 'method']))
+                elif which == 'translate':
+                    operations.translate(o, [rng.uniform(-2, 2) for _ in range(dim)], inplace=True)
+                elif which == 'flip' and pdim == 2:
+                    operations.flip(o, inplace=True)
+                elif which == 'transpose' and pdim == 2:
+                    operations.transpose(o, inplace=True)
+                elif which == 'refine' and max(G.sizes_of(o)) <= 6:
+                    prm_ = [0] * pdim
+                    prm_[rng.randrange(pdim)] = 1
+                    operations.refine_knotvector(o, prm_)
+                else:
+                    continue
+            ctx.tag('op:restructure')
+            pw_now = [list(p) for p in o.ctrlptsw]
+            P = [[c / p[-1] for c in p[:-1]] for p in pw_now]
+            W = [p[-1] for p in pw_now]
+            n = len(pw_now)
+            sd = dict(sd, sizes=G.sizes_of(o), degrees=G.degrees_of(o))
+            writes += 1
+            if not views_ok(ctx, o, P, W, 'step %d (%s)' % (step, which)):
+                return
+            continue
         if op == 'ctrlpts':
             P = [[rng.uniform(-10, 10) for _ in range(dim)] for _ in range(n)]
             o.ctrlpts = [list(p) for p in P]
@@ -205,6 +241,26 @@ def check_convert(case, ctx):
                  what='convert')
     ctx.check(close([list(p) for p in b.ctrlpts], [list(p) for p in o.ctrlpts]), 'convert/roundtrip-ctrlpts',
               'B-spline -> NURBS -> B-spline changed control points', what='convert')
+    # a genuinely rational shape cannot be turned into a non-rational one: whatever nurbs_to_bspline returns must evaluate identically
+    for wcls in ('below-one', 'above-one', 'mixed'):
+        r2 = convert.bspline_to_nurbs(o)
+        n = len(sd['ctrlpts'])
+        if wcls == 'below-one':
+            W = [rng.choice([1.0, 1.0, 0.5, 0.7071067811865476, rng.uniform(0.2, 0.99)]) for _ in range(n)]
+            W[rng.randrange(n)] = 0.6
+        elif wcls == 'above-one':
+            W = [rng.choice([1.0, 2.0, rng.uniform(1.01, 4)]) for _ in range(n)]
+            W[rng.randrange(n)] = 1.5
+        else:
+            W = [rng.uniform(0.3, 3) for _ in range(n)]
+        r2.weights = list(W)
+        S2 = G.defn_of(r2)
+        with so.quiet():
+            back = convert.nurbs_to_bspline(r2)
+        for q in prs[:5]:
+            ctx.near(G.evaluate_single(back, q), S2.point(q), 1e-9 * so.scale_of_defn(S2), 'convert/n2b-dropped-weights',
+                     'nurbs_to_bspline of a shape with non-unit weights (%s) returns a shape that evaluates differently' % wcls,
+                     what='convert')
 
 
 def check_grid(case, ctx):
